@@ -230,6 +230,13 @@ impl<Front: SocketHandler> ExpectProxyProtocol<Front> {
                 SessionResult::Upgrade
             }
             Err(Err::Incomplete(_)) => {
+                if socket_result == SocketResult::Closed {
+                    trace!(
+                        "{} socket closed inside the header, closing session",
+                        log_context!(self)
+                    );
+                    return SessionResult::Close;
+                }
                 if self.index == self.frontend_buffer.len() {
                     error!(
                         "{} proxy protocol header exceeds maximum size (232 bytes), closing",
